@@ -32,12 +32,14 @@ func pairingCheckHint(scalarField *big.Int, inputs, outputs []*big.Int) error {
 	n := len(inputs)
 	p := make([]bls12377.G1Affine, 0, n/6)
 	q := make([]bls12377.G2Affine, 0, n/6)
-	for k := 0; k < n/6+1; k += 2 {
+	// the inputs are the n/6 points of G1 (2 coordinates each) followed by
+	// the n/6 points of G2 (4 coordinates each)
+	for k := 0; k < n/3; k += 2 {
 		P.X.SetBigInt(inputs[k])
 		P.Y.SetBigInt(inputs[k+1])
 		p = append(p, P)
 	}
-	for k := n / 3; k < n/2+3; k += 4 {
+	for k := n / 3; k < n; k += 4 {
 		Q.X.A0.SetBigInt(inputs[k])
 		Q.X.A1.SetBigInt(inputs[k+1])
 		Q.Y.A0.SetBigInt(inputs[k+2])
